@@ -246,7 +246,7 @@ def make_olist(eng):
 
 def make_fence(eng, n):
     setup()
-    lang = lift(new_str(eng, "l", n, alphabet="py-+3 "))
+    lang = lift(new_str(eng, "l", n, alphabet="py-+3 \t"))
     eng.witness_fn = lambda m: {"lang": eng.eval_model(m, lang)}
 
     def body():
@@ -849,7 +849,7 @@ def families(tier, seed):
                     nontrivial="attr", max_forks=100000))
     F.append(Family("image", make_image, "image src 3 symbolic chars, alt 2 symbolic chars", args=dict(n=3), nontrivial="attr", max_forks=100000))
     F.append(Family("olist-start", make_olist, "ordered list with start = any integer (symbolic), present/absent, suffix . or )", nontrivial="attr", max_forks=100000))
-    F.append(Family("fence-lang", make_fence, "fence info string of 3 symbolic chars over 'py-+3 '", args=dict(n=3), nontrivial="attr", max_forks=100000))
+    F.append(Family("fence-lang", make_fence, "fence info string of 3 symbolic chars over 'py-+3', space and tab", args=dict(n=3), nontrivial="attr", max_forks=100000))
     for nc, nr, nk in ([(1, 1, 3), (2, 1, 3), (3, 1, 2)] if q else [(1, 2, 3), (2, 1, 3), (2, 2, 3), (3, 1, 2), (3, 2, 2), (3, 1, 3)]):
         F.append(Family("table/C%dR%dK%d" % (nc, nr, nk), make_table, "pipe table: %d column(s) x alignment none/left/center/right, header + %d body row(s), every cell from %r" % (nc, nr, [x[0] for x in CELLS[:nk]]),
                         args=dict(ncols=nc, nrows=nr, ncellkinds=nk), nontrivial="attr", max_forks=400000, required=(nc * (1 + nr) <= 6)))
